@@ -303,6 +303,9 @@ class Interp:
                 if any(b for _, b in cs):
                     raise Unsupported('capture inside an or-pattern')
                 return ast.BoolOp(op=ast.Or(), values=[c for c, _ in cs]), []
+            if isinstance(p, ast.MatchClass) and not p.patterns and not p.kwd_patterns:
+                # `case Cls():` is isinstance(subject, Cls)
+                return ast.Call(func=ast.Name(id='isinstance', ctx=ast.Load()), args=[subj, p.cls], keywords=[]), []
             if isinstance(p, ast.MatchAs) and p.pattern is None:
                 return ast.Constant(value=True), ([p.name] if p.name else [])
             if isinstance(p, ast.MatchAs):
